@@ -210,6 +210,60 @@ def run_op(name, recursive, split=False):
     return problems
 
 
+HISTORIES = {
+    # directory operations one at a time (the stream drains after each), then every directory of the final tree is probed:
+    # a file created in it must be reported under its real current path, and under no other
+    "rename a directory, re-create its old name, rename that too": [("rename", "a", "c"), ("mkdir", "a"), ("rename", "a", "d")],
+    "rename a directory twice, re-create the first name with a child of the same name": [("rename", "a", "c"), ("rename", "c", "e"), ("mkdir", "a"), ("mkdir", "a/s"), ("rename", "a", "c")],
+    "move a directory out, move another in under its name, rename it": [("moveout", "a"), ("movein", "od", "a"), ("rename", "a", "c")],
+}
+
+
+def history(name, rootkind="str"):
+    base = tempfile.mkdtemp(prefix="c03h")
+    problems = []
+    try:
+        root, out = build(base)
+        conv = (lambda p: p) if rootkind == "str" else os.fsencode
+        q = queue.Queue()
+        em = InotifyEmitter(q, ObservedWatch(conv(root), recursive=True))
+        em.start()
+        try:
+            R = lambda p: os.path.join(root, p)
+            for st in HISTORIES[name]:
+                if st[0] == "rename":
+                    os.rename(R(st[1]), R(st[2]))
+                elif st[0] == "mkdir":
+                    os.mkdir(R(st[1]))
+                elif st[0] == "moveout":
+                    os.rename(R(st[1]), os.path.join(out, st[1]))
+                elif st[0] == "movein":
+                    os.rename(os.path.join(out, st[1]), R(st[2]))
+                _got, seen = collect(q, conv(root))
+                if not seen:
+                    return [f"history `{name}`: the emitter went quiet after {st}"]
+            for d in [root] + [p for p, isd in sorted(walk(root)) if isd]:
+                pr = os.path.join(d, "probe")
+                open(pr, "w").close()
+                evs, seen = collect(q, conv(root))
+                os.unlink(pr)
+                collect(q, conv(root))
+                hit = [e for e in evs if isinstance(e, E.FileCreatedEvent) and e.src_path == conv(pr)]
+                stray = [e for e in evs if isinstance(e, E.FileCreatedEvent) and e.src_path != conv(pr)]
+                if stray:
+                    problems.append(f"history `{name}`: a file created in {os.path.relpath(d, base)} is reported as {stray[0].src_path!r} - an entry that does not exist")
+                    break
+                if not hit:
+                    problems.append(f"history `{name}`: a file created in {os.path.relpath(d, base)} is not reported")
+                    break
+        finally:
+            em.stop()
+            em.join(3)
+    finally:
+        shutil.rmtree(base, ignore_errors=True)
+    return problems
+
+
 BURSTS = {
     "rename": ("touch a/x0; mv a c; touch c/n1; mkdir c/nd",
                lambda R: (open(R("a", "x0"), "w").close(), os.rename(R("a"), R("c")), open(R("c", "n1"), "w").close(), os.mkdir(R("c", "nd"))),
